@@ -433,6 +433,10 @@ def scenarios(tier: str) -> list[QueueingScenario]:
         for rc in (0.75, 1.25):
             out.append(QueueingScenario(events=[(0.0, 'a', 0.0), (0.25, 'a', 0.0), (0.5, 'b', 0.25), (0.75, 'a', 0.0), (1.0, 'b', 0.0), (1.75, 'a', 0.25), (2.0, 'b', 0.0)],
                                         limit=None, rv0=rv0, reconnect_at=rc))
+    # the lines of the watch arrive cut into network reads in other ways than one line per read
+    for framing in ('newline-alone', 'split-mid', 'newline-leads', 'bytes3'):
+        for evs in ([(0.0, 'a', 0.25), (0.0, 'b', 0.0), (0.25, 'a', 0.0)], [(0.0, 'a', 1.5), (0.25, 'a', 0.25), (0.25, 'b', 0.25), (1.25, 'a', 0.0)]):
+            out.append(QueueingScenario(events=evs, limit=None, framing=framing))
     # cancellation (single and double) while workers are busy / idle / waiting for a slot
     for evs in ([(0.0, 'a', 0.25), (0.0, 'a', 0.25)], [(0.0, 'a', 1.5), (0.25, 'b', 0.25), (0.25, 'a', 0.25)],
                 [(0.0, 'a', 1.5), (0.0, 'a', 1.5)], [(0.0, 'a', 0.25), (0.0, 'b', 1.5), (0.25, 'b', 0.25)]):
